@@ -15,7 +15,10 @@ def check(run, only=None):
         from vlib import corpus
         gs = list(grammars(n, r)) + corpus.classic() + corpus.rule_orders() + corpus.lookahead_chains() + corpus.nullable_lists() + corpus.random_grammars(3000 if run.tier == "quick" else 40000)
         params = {"tier": run.tier}
-        results = fw.pmap(table_grammar_worker, [("C05", g, params) for g in gs])
+        # start production = LAYOUT rule (the table of the layout sub-parser): the same grammars with S as LAYOUT
+        ls = dict(params, layout_start=True)
+        lgs = list(grammars(3, 2))[::1 if run.tier == "thorough" else 3] + corpus.classic() + corpus.lookahead_chains()
+        results = fw.pmap(table_grammar_worker, [("C05", g, params) for g in gs] + [("C05", g, ls) for g in lgs])
         out = fw.merge_worker_results(results, RULE.format(n=n, r=r))
         out["extra"]["grammars"] = len(gs)
         run.add_bounded(out)
@@ -23,8 +26,12 @@ def check(run, only=None):
         from vlib.props import pcommon
         from vlib.companions import parserfuncs as pf
         import contracts.tables_items as ti
-        pcommon.add_proof(run, "C05", ti.ITEMS_C05, [pf.run_items],
+        import contracts.closure_follow as cf
+        pcommon.add_proof(run, "C05", ti.ITEMS_C05 + cf.CLOSURE_C05, [pf.run_items, pf.run_closure_follow],
                           "LRItem: get_pos_inc returns None exactly at the end of the production, otherwise a NEW item with "
                           "the same production, position + 1 and a COPY of the look-ahead set (same members, different "
                           "object: the aliasing of defect 3039629 is excluded for every item); __init__ never shares a "
-                          "default look-ahead set; is_at_end / symbol_at_position")
+                          "default look-ahead set; is_at_end / symbol_at_position; "
+                          "closure._new_item_follow returns a new set that is exactly FIRST(beta L) without EMPTY: the "
+                          "non-EMPTY FIRST members of every symbol of beta reached through nullable symbols only, plus the "
+                          "item's own look-aheads iff all of beta is nullable; FIRST sets and the item are not modified")
